@@ -38,7 +38,7 @@ class SimThread:
     __slots__ = ('tid', 'name', 'role', 'baton', 'state', 'waiting_on',
                  'wake_time', 'wake_step', 'timer_token', 'pending_exc',
                  'sentinel', 'fn', 'args', 'kwargs', 'exc', 'prio', 'steps',
-                 'frame_summary', 'interruptible')
+                 'frame_summary', 'interruptible', 'ident')
 
     def __init__(self, tid, fn, args, kwargs, name=None, role=None):
         self.tid = tid
@@ -61,6 +61,7 @@ class SimThread:
         self.steps = 0
         self.frame_summary = None
         self.interruptible = False
+        self.ident = None
 
     def __repr__(self):
         return '<SimThread %d %s %s %s>' % (
@@ -282,6 +283,7 @@ class Sim:
 
     def _bootstrap(self, st):
         _tls.st = st
+        st.ident = _real_thread.get_ident()
         st.baton.acquire()
         try:
             if not self.aborting:
@@ -443,9 +445,24 @@ class Sim:
         if nxt is not cur:
             self._switch_to(nxt)
 
+    def _unsafe_to_interrupt(self, st):
+        """CPython's Condition.wait re-acquires its lock in a finally block; a
+        KeyboardInterrupt raised by *that* acquire leaves the enclosing
+        `with cond:` releasing a lock it does not hold (a CPython hazard, not
+        the library's).  Ctrl-C is therefore only delivered at the primary
+        waits (Event/Condition waiter, join, mutex entry)."""
+        fr = sys._current_frames().get(st.ident)
+        while fr is not None:
+            if fr.f_code.co_name == '_acquire_restore':
+                return True
+            fr = fr.f_back
+        return False
+
     def _try_interrupt(self):
         t0 = self.threads[0]
         if t0.state == BLOCKED and t0.interruptible and t0.pending_exc is None:
+            if self._unsafe_to_interrupt(t0):
+                return
             t0.pending_exc = KeyboardInterrupt()
             t0.state = RUNNABLE
             self.interrupt_at_step = None
@@ -496,7 +513,8 @@ class Sim:
             t0 = self.threads[0]
             if t0.state == BLOCKED and t0.interruptible and t0.pending_exc is None:
                 self._try_interrupt()
-                return True
+                if t0.state == RUNNABLE:
+                    return True
         ws = [t for t in self.threads if t.state == WAITSTEP]
         if ws:
             m = min(t.wake_step for t in ws)
